@@ -57,7 +57,7 @@ func (r *Rule) inflected(s string) string {
 		var buf strings.Builder
 
 		buf.WriteString(res[1])
-		buf.WriteString(s[0:1])
+		buf.WriteString(res[2][0:1])
 		buf.WriteString(r.irregularMap[strings.ToLower(res[2])][1:])
 
 		return buf.String()
